@@ -381,6 +381,39 @@ pub fn run_c18(ctx: &mut Ctx) {
         or.eval((&wire, role, ci), true);
         if ci == 0 { or.sample(format!("role {role}, records (type, own id, len): {:?}", recs.iter().map(|r| (r.rtype, r.id == id, r.content.len())).collect::<Vec<_>>())); }
     }
+    // --- switching to the next stream in the MIDDLE of a record of the current one: the rest of that record must never surface
+    for ci in 0..ctx.n(150, 3000) {
+        let id = rng.range(1, 65535) as u16;
+        let la = 1 + rng.usize_below(60); let lb = 1 + rng.usize_below(40); let a = rng.bytes(la); let b = rng.bytes(lb);
+        let recs = vec![Rec::new(T_STDIN, id, a.clone(), pad_bytes(&mut rng)), Rec::new(T_DATA, id, b.clone(), pad_bytes(&mut rng)), Rec::new(T_DATA, id, vec![], vec![])];
+        let wire = ser_all(&recs);
+        let cut = 8 + rng.usize_below(a.len());            // inside the payload of the Stdin record
+        log.case(&format!("c18-midswitch-{ci}"));
+        let Some(mut d) = start_stream_parser(&mut log, &mut im, *rng.pick(&[24usize, 64, 256]), 3, id, 3, 0, &[], "C18") else { continue };
+        let use_dest = rng.chance(1, 2);
+        // feed up to the cut (in pieces that fit), reading with a small destination so that the record stays half-parsed
+        let mut pos = 0;
+        while pos < cut { if d.free == 0 { let n = d.buf.len(); d.simple(&mut log, &mut im, &format!("str.consume {n}")); d.simple(&mut log, &mut im, "str.compress"); }
+            let n = (cut - pos).min(d.free.max(1)).min(d.free); if n == 0 { break; }
+            let dest = if use_dest { d.simple(&mut log, &mut im, &format!("str.consume {}", d.buf.len())); Some(rng.usize_below(4)) } else { None };
+            if !d.parse(&mut log, &mut im, &mut or, &wire[pos..pos + n], dest) { break; } pos += n; }
+        let o = d.simple(&mut log, &mut im, &format!("str.set_stream {T_DATA}"));
+        if !o.starts_with("ok") { or.fail(format!("advancing mid-record was rejected: {o}"), log.replay_block(), "C18:advance-rejected".into()); continue; }
+        let before_switch = d.delivered.get(&T_STDIN).cloned().unwrap_or_default();
+        d.delivered.clear();
+        // everything else, drained
+        let mut guard = 0;
+        loop { guard += 1; if guard > 2000 { break; }
+            if d.free == 0 || !d.buf.is_empty() { let n = d.buf.len(); d.simple(&mut log, &mut im, &format!("str.consume {n}")); d.simple(&mut log, &mut im, "str.compress"); }
+            let n = (wire.len() - pos).min(d.free);
+            let dest = if use_dest { Some(1 + rng.usize_below(16)) } else { None };
+            if !d.parse(&mut log, &mut im, &mut or, &wire[pos..pos + n], dest) { break; } pos += n;
+            if d.last_end && pos == wire.len() { break; } }
+        let got = d.delivered.get(&T_DATA).cloned().unwrap_or_default();
+        if got != b { or.fail(format!("after switching to Data in the middle of a Stdin record, {} bytes were delivered for Data but {} were sent (the rest of the old record leaked or data was lost)", got.len(), b.len()), log.replay_block(), "C18:midrecord-switch".into()); }
+        if !a.starts_with(&before_switch) { or.fail("Stdin bytes delivered before the switch are not a prefix of the stream".into(), log.replay_block(), "C18:midrecord-prefix".into()); }
+        or.eval(("midswitch", ci), true); or.count("midrecord_switches");
+    }
     or.count_n("corr_ops", log.nops);
     log.finish();
     or.write(&ctx.dir);
